@@ -76,6 +76,11 @@ def mk_values(it, prog):
     vals['cont again'] = cont('vmc_again', body=cont('vmc_quit', exit_code=K(2)))
     vals['cont while_cond'] = cont('vmc_while_cond', cond=cont('vmc_quit_exc'), body=cont('vmc_quit', exit_code=K(3)), after=cont('vmc_quit_exc'))
     vals['cont while_body'] = cont('vmc_while_body', cond=cont('vmc_quit_exc'), body=cont('vmc_quit', exit_code=K(4)), after=cont('vmc_quit_exc'))
+    # the same continuations with the keywords in another order: what is written is decided by the scheme, not by the call site
+    vals['cont repeat (keywords after, body, count)'] = cont('vmc_repeat', after=cont('vmc_quit', exit_code=K(-1)), body=cont('vmc_quit_exc'), count=K(77))
+    vals['cont until (keywords after, body)'] = cont('vmc_until', after=cont('vmc_quit_exc'), body=cont('vmc_quit', exit_code=K(1)))
+    vals['cont while_cond (keywords after, body, cond)'] = cont('vmc_while_cond', after=cont('vmc_quit', exit_code=K(8)), body=cont('vmc_quit', exit_code=K(3)), cond=cont('vmc_quit_exc'))
+    vals['cont while_body (keywords body, after, cond)'] = cont('vmc_while_body', body=cont('vmc_quit', exit_code=K(4)), after=cont('vmc_quit_exc'), cond=cont('vmc_quit', exit_code=K(9)))
     vals['cont pushint'] = cont('vmc_pushint', value=K(-(1 << 31)), next=cont('vmc_quit', exit_code=K(5)))
     # vmc_std / vmc_envelope carry control data: nargs:(Maybe uint13), stack, save list, cp:(Maybe int16) - `just 0` is not `nothing`
     VCD = prog.cls('VmControlData')
